@@ -471,6 +471,40 @@ pub fn shapes(target: &str, thorough: bool) -> Vec<(String, Vec<u8>)> {
                     v.push((format!("shape: {d} single-chunk containers nested through mode {}", mode as char), b));
                 }
             }
+            // a two-chunk container whose header_size field disagrees with where the chunks are:
+            // one to three bytes more or less, with and without padding bytes behind the chunk table
+            {
+                let chunks: [&[u8]; 2] = [b"Nfirst chunk of the container", b"Nsecond"];
+                let table = |hs: u32| {
+                    let mut b = b"BLTE".to_vec();
+                    b.extend_from_slice(&hs.to_be_bytes());
+                    b.push(0x0f);
+                    b.extend_from_slice(&[0, 0, 2]);
+                    for c in chunks {
+                        b.extend_from_slice(&(c.len() as u32).to_be_bytes());
+                        b.extend_from_slice(&((c.len() - 1) as u32).to_be_bytes());
+                        b.extend_from_slice(&md5::md5(c));
+                    }
+                    b
+                };
+                let real = 12 + 24 * 2u32;
+                for delta in [-3i32, -1, 1, 2, 3, 16] {
+                    for pad in [None, Some(0u8), Some(b'N'), Some(b' ')] {
+                        let mut b = table(real.wrapping_add_signed(delta));
+                        if let (Some(p), true) = (pad, delta > 0) {
+                            b.extend(std::iter::repeat_n(p, delta as usize));
+                        } else if pad.is_some() {
+                            continue;
+                        }
+                        for c in chunks {
+                            b.extend_from_slice(c);
+                        }
+                        // room behind the last chunk for a reader that starts late
+                        b.extend_from_slice(b"NNNNNNNNNNNNNNNNNNNN");
+                        v.push((format!("shape: header_size {delta:+} against the chunk table, padding {pad:?}"), b));
+                    }
+                }
+            }
             // every short body of an encrypted chunk: key name size, key name, IV size {4, 8, other},
             // cut at each length 0..=32 — as a single-chunk file and as the one chunk of a chunk
             // table (sizes and checksum right), so that the key lookup succeeds with the target's store
